@@ -241,8 +241,14 @@ def extract_from_template(
                     # Our multi-line comments are wrapped in a tag, so we're
                     # only ever going to have one comment text object to deal
                     # with.
+                    # Remember the line the comment ends on, so a multi-line
+                    # comment still immediately precedes the next line.
+                    end_lineno = lineno + max(
+                        len(token.source[token.start : token.stop].splitlines()) - 1,
+                        0,
+                    )
                     _comments.clear()
-                    _comments.append((lineno, comment_text))
+                    _comments.append((end_lineno, comment_text))
                     break
         elif (
             is_tag_token(token)
